@@ -1165,6 +1165,8 @@ func (oc *obligCtx) tokenObligations(fn *ssa.Function) []Obligation {
 			ob.Discharged, ob.Why = true, "the runtime's own node: every node kind evaluated by this runtime type is instanced from a token"
 		case oc.kindsCarryToken(oc.kindSet(fn, nodeV, f, 0)):
 			ob.Discharged, ob.Why = true, "AST shape: every node kind possible at this position ("+strings.Join(oc.kindSet(fn, nodeV, f, 0), "/")+") is instanced from a token"
+		case oc.paramTokenNonNil(nodeV, fn):
+			ob.Discharged, ob.Why = true, "the node is a parameter of an unexported function and every call site passes a node whose Token it has tested against nil"
 		default:
 			ob.Why = "dereference of " + np + ".Token — a node constructed by the parser (statements, funccall, compaccess, params, guard, else-true) has a nil token"
 		}
@@ -1555,6 +1557,39 @@ func hashableOnAllPaths(in ssa.Instruction, key ssa.Value) bool {
 // nonNilError: the value is certainly a non-nil error: a package-level error variable, a
 // fresh error (fmt.Errorf, errors.New, a composite), a phi of such, or a parameter of the
 // forwarding constructor (its callers are checked at their own call sites).
+// paramTokenNonNil: nodeV is a *ASTNode parameter of an unexported, statically called function and
+// at every call site the argument's Token is known non-nil.
+func (oc *obligCtx) paramTokenNonNil(nodeV ssa.Value, fn *ssa.Function) bool {
+	p, ok := unspill(nodeV).(*ssa.Parameter)
+	if !ok || p.Parent() != fn || fn.Parent() != nil {
+		return false
+	}
+	if o := fn.Object(); o == nil || o.Exported() {
+		return false
+	}
+	idx := paramIndex(fn, p)
+	n := oc.c.CHA().Nodes[fn]
+	if n == nil || idx < 0 {
+		return false
+	}
+	sites := 0
+	for _, e := range n.In {
+		if e.Caller.Func.Synthetic != "" {
+			continue
+		}
+		if e.Site == nil || e.Site.Common().StaticCallee() != fn {
+			return false
+		}
+		args := callArgs(e.Site.Common())
+		in, _ := e.Site.(ssa.Instruction)
+		if idx >= len(args) || in == nil || !FactsAt(in).NonNil[accessPath(args[idx])+".Token"] {
+			return false
+		}
+		sites++
+	}
+	return sites > 0
+}
+
 // paramErrNonNil: v is a parameter of an unexported module function and every call site passes a
 // non-nil error value for it (a helper that builds the runtime error from its arguments).
 func (oc *obligCtx) paramErrNonNil(v ssa.Value, fn *ssa.Function) bool {
